@@ -67,6 +67,10 @@ func (f mField) schema() map[string]any {
 		s = map[string]any{"type": "object", "required": []string{"name"}, "properties": map[string]any{"name": map[string]any{"type": "string"}}, "additionalProperties": map[string]any{"type": "string"}}
 	case "arrref":
 		s = map[string]any{"type": "array", "items": map[string]any{"$ref": "#/components/schemas/Leaf"}}
+	case "mapnullint": // dictionary whose values may be null
+		s = map[string]any{"type": "object", "additionalProperties": map[string]any{"type": "integer", "nullable": true}}
+	case "mapnullref": // dictionary of nullable references (the 3.0 idiom: nullable next to a one-member allOf)
+		s = map[string]any{"type": "object", "additionalProperties": map[string]any{"nullable": true, "allOf": []any{map[string]any{"$ref": "#/components/schemas/Leaf"}}}}
 	case "mapobj": // map of inline objects that allow additional members
 		s = map[string]any{"type": "object", "additionalProperties": map[string]any{"type": "object", "properties": map[string]any{"name": map[string]any{"type": "string"}}, "additionalProperties": map[string]any{"type": "integer"}}}
 	}
@@ -175,6 +179,19 @@ func genMemberValue(rng *rand.Rand, kind string) any {
 			l = append(l, map[string]any{"x": mStrings[rng.Intn(len(mStrings))], "y": rng.Intn(10)})
 		}
 		return l
+	case "mapnullint", "mapnullref":
+		m := map[string]any{}
+		for i := 0; i < 1+rng.Intn(3); i++ {
+			switch {
+			case rng.Intn(2) == 0:
+				m[fmt.Sprintf("k%d", i)] = nil // an explicit null is a value of its own
+			case kind == "mapnullint":
+				m[fmt.Sprintf("k%d", i)] = rng.Intn(100)
+			default:
+				m[fmt.Sprintf("k%d", i)] = map[string]any{"x": mStrings[rng.Intn(len(mStrings))], "y": rng.Intn(10)}
+			}
+		}
+		return m
 	case "mapobj":
 		m := map[string]any{}
 		for i := 0; i < rng.Intn(3); i++ {
@@ -245,7 +262,7 @@ func zeroOf(kind string) any {
 		return []any{}
 	case "inlobj":
 		return map[string]any{"name": ""}
-	case "mapobj":
+	case "mapobj", "mapnullint", "mapnullref":
 		return map[string]any{}
 	}
 	return nil
@@ -334,7 +351,7 @@ func runC07(r *Report, rng *rand.Rand, thorough bool) {
 	if thorough {
 		nSchemas, nInst = 300, 40
 	}
-	kinds := []string{"string", "int", "int64", "double", "bool", "date", "arr", "map", "ref", "arrobj", "inlobj", "arrref", "mapobj", "byte", "uuid", "datetime", "email"}
+	kinds := []string{"string", "int", "int64", "double", "bool", "date", "arr", "map", "ref", "arrobj", "inlobj", "arrref", "mapobj", "byte", "uuid", "datetime", "email", "mapnullint", "mapnullref"}
 	var schemas []mSchema
 	// two fixed schemas with one member of EVERY kind: all optional and non-nullable in a plain object, all required
 	for fi, req := range []bool{false, true} {
@@ -616,5 +633,5 @@ func runC07(r *Report, rng *rand.Rand, thorough bool) {
 	}
 	ccases.WriteTo(r)
 	// ---- number without format is float32 (documented): a value needing more precision is narrowed
-	r.Rule = "two fixed object schemas with one member of every kind (all optional / all required) and object schemas from a grammar (1-5 members: required/optional x nullable x {string, int, int64, double, bool, date, byte (incl. the empty string), uuid, date-time, email, array, map, referenced object, array of inline objects with additional members, inline object with additional members, array of references, map of inline objects with additional members}, some readOnly/writeOnly; additionalProperties absent / true / string / integer / array of integers / object with optional members / map of strings, with 0-3 additional members) x {default, nullable-type, disable-required-readonly-as-pointer}, plus four merged (allOf) types whose members differ in what they allow for unknown members and three union types (oneOf / anyOf / oneOf with an own property) with 64-bit extremes inside the stored member, generated and compiled; valid instances from a schema-directed generator (one instance per schema with zero values in every required member and one with zero values in every member, optional ones included, explicit nulls, absent optionals, empty arrays/maps, 64-bit extremes, float64 edge values, escaped and non-ASCII strings, extra members of the additional type) unmarshalled into the generated type and marshalled again; semantic JSON equality modulo the documented exception (oracle) and the model's re-encoded object (Coq); non-trivial = instance with at least two members"
+	r.Rule = "two fixed object schemas with one member of every kind (all optional / all required) and object schemas from a grammar (1-5 members: required/optional x nullable x {string, int, int64, double, bool, date, byte (incl. the empty string), uuid, date-time, email, array, map, referenced object, array of inline objects with additional members, inline object with additional members, array of references, map of inline objects with additional members, dictionaries whose values are nullable integers / nullable references (explicit null values)}, some readOnly/writeOnly; additionalProperties absent / true / string / integer / array of integers / object with optional members / map of strings, with 0-3 additional members) x {default, nullable-type, disable-required-readonly-as-pointer}, plus four merged (allOf) types whose members differ in what they allow for unknown members and three union types (oneOf / anyOf / oneOf with an own property) with 64-bit extremes inside the stored member, generated and compiled; valid instances from a schema-directed generator (one instance per schema with zero values in every required member and one with zero values in every member, optional ones included, explicit nulls, absent optionals, empty arrays/maps, 64-bit extremes, float64 edge values, escaped and non-ASCII strings, extra members of the additional type) unmarshalled into the generated type and marshalled again; semantic JSON equality modulo the documented exception (oracle) and the model's re-encoded object (Coq); non-trivial = instance with at least two members"
 }
